@@ -36,23 +36,6 @@ VARIABLES l,     \* next event
 
 vars == <<l, fs, case, base, bad, out>>
 
-Applicable(f, e) ==
-  CASE e.op \in {"write", "trunc", "fsync", "unlink"} -> Exists(f, e.name)
-    [] e.op = "rename" -> Exists(f, e.from)
-    [] e.op \in {"open", "mkdir", "rmdir", "dirsync"} -> TRUE
-    [] OTHER -> FALSE
-
-ApplyEv(f, e) ==
-  CASE e.op = "open"    -> FsOpen(f, e.name, e.creat, e.trunc)
-    [] e.op = "write"   -> FsWrite(f, e.name, e.off, e.len, e.src)
-    [] e.op = "trunc"   -> FsTrunc(f, e.name, e.len)
-    [] e.op = "fsync"   -> FsSync(f, e.name)
-    [] e.op = "rename"  -> FsRename(f, e.from, e.to)
-    [] e.op = "unlink"  -> FsUnlink(f, e.name)
-    [] e.op = "mkdir"   -> FsMkdir(f, e.name)
-    [] e.op = "rmdir"   -> FsRmdir(f, e.name)
-    [] e.op = "dirsync" -> FsDirSync(f)
-
 TInit == l = 1 /\ fs = FsEmpty /\ case = "" /\ base = 0 /\ bad = <<>> /\ out = [on |-> FALSE]
 
 Step ==
